@@ -36,6 +36,21 @@ fn arg<'a>(args: &'a [String], name: &str) -> Option<&'a str> {
     args.iter().position(|a| a == name).and_then(|i| args.get(i + 1)).map(|s| s.as_str())
 }
 
+/// Memory guard for worker / replay processes: a case that makes the code under test (or the harness
+/// loop driving it) allocate without bound must not take the machine down before the stall watchdog
+/// fires. Resident set above 8 GiB ends the process: a worker with exit 3 (the orchestrator then blames
+/// the journalled case and replays it in isolation), an isolated replay with exit 2 (inconclusive).
+fn memory_guard(exit_code: i32) {
+    std::thread::spawn(move || loop {
+        std::thread::sleep(std::time::Duration::from_millis(200));
+        let rss_pages = std::fs::read_to_string("/proc/self/statm").ok().and_then(|s| s.split_whitespace().nth(1).and_then(|x| x.parse::<u64>().ok())).unwrap_or(0);
+        if rss_pages * 4096 > 8u64 << 30 {
+            eprintln!("memory guard: resident set above 8 GiB, giving up on this case");
+            std::process::exit(exit_code);
+        }
+    });
+}
+
 fn main() {
     // Many checks clone 300 KB compressor states millions of times; keep malloc from going to the
     // kernel (mmap/munmap/brk trimming) for every clone, which serialises badly across 16 processes.
@@ -60,6 +75,7 @@ fn main() {
             dispatch!(args[2].as_str(), orchestrate, tier)
         }
         "worker" => {
+            memory_guard(3);
             let tier = Tier::parse(&args[3]).expect("tier");
             let a = WorkerArgs {
                 tier,
@@ -76,6 +92,7 @@ fn main() {
             dispatch!(args[2].as_str(), run_worker, &a)
         }
         "replay" => {
+            memory_guard(2);
             let file = std::path::PathBuf::from(&args[3]);
             let profile = arg(&args, "--profile").unwrap_or(profile_default).to_string();
             let tier = Tier::Quick;
